@@ -133,7 +133,7 @@ def run(tier, seed, replay=None):
     seen = set()
     nontriv = 0
     samples = []
-    corr_bad = None
+    corr_bad = C.Corr()
     for ci, (b, pts, te, d, fr_) in enumerate(meta):
         N, Nd = impl[ci]
         rows = out1[ci].list(lambda: out1[ci].qlist())
@@ -151,8 +151,8 @@ def run(tier, seed, replay=None):
                     nontriv += 1
             okrow = all(C.close(N[pi, j], rows[pi][j], scale) for j in range(n))
             oksp = all(abs(N[pi, j] - Nd[pi, j]) <= 1e-9 * max(1, scale) for j in range(n))
-            if not okrow and corr_bad is None:
-                corr_bad = {'what': 'L1 correspondence: impl row differs from transcribed model',
+            if not okrow and corr_bad.open():
+                corr_bad += {'what': 'L1 correspondence: impl row differs from transcribed model',
                             'case': dict(order=b['order'], knots=[str(x) for x in b['knots']], periodic=b['periodic'],
                                          t=str(t), d=d, from_right=fr_),
                             'impl': [float(x) for x in N[pi]], 'model': [str(x) for x in rows[pi]]}
@@ -185,7 +185,7 @@ def run(tier, seed, replay=None):
         elif len(samples) < 4 and li is not None and len(set(b['knots'])) > 3 and d > 0:
             samples.append(dict(order=b['order'], knots=[str(x) for x in b['knots']], periodic=b['periodic'],
                                 t=str(te[pi]), d=d, from_right=fr_, row=[str(x) for x in exp]))
-    extra_no_input = corr_bad if (corr_bad and not V.fail) else None
+    extra_no_input = corr_bad
     rc = V.finish(l0, extra_no_input)
     C.write_evidence(PID, tier, seed, l0, {
         'evaluations': evals, 'distinct_nontrivial': nontriv,
